@@ -286,7 +286,7 @@ def start_worker(crate, config, names, timeout_s, log_path):
     return p, lf, " ".join(cmd[:13]) + " --harness <each obligation>"
 
 
-PROP_RE = re.compile(r"^\[([^\]\s]+)\] (?:file \S+ )?line (\d+) (?:\[KANI_CHECK_ID_[^\]]*\] )?((?:.|\n)*?): (SUCCESS|FAILURE|UNKNOWN|ERROR)$", re.M)
+PROP_RE = re.compile(r"^\[(.+?\.[A-Za-z_\-]+\.\d+)\] (?:file \S+ )?line (\d+) (?:\[KANI_CHECK_ID_[^\]]*\] )?((?:.|\n)*?): (SUCCESS|FAILURE|UNKNOWN|ERROR)$", re.M)
 
 
 def parse_old(out):
@@ -399,7 +399,7 @@ def classify(ob, r):
     if st == "timeout":
         return "undecided:timeout"
     if st == "crash":
-        return "undecided:crash"
+        return "undecided:timeout-or-crash (no result block in CBMC output)"
     if ob.panic:
         # always-panics obligation: the reach cover after the call must be unsatisfiable (no input
         # returns normally), at least one check must fail (the panic is reachable) and every failed
@@ -433,6 +433,14 @@ def classify(ob, r):
 
 
 # --------------------------------------------------------------------------------------------
+def load_costs():
+    p = os.path.join(VERIF, "lib", "costs.json")
+    try:
+        return json.load(open(p))
+    except Exception:
+        return {}
+
+
 def load_known_findings():
     p = os.path.join(VERIF, "known_findings.txt")
     kf, fixed = [], []
@@ -471,6 +479,8 @@ class Session:
         self.violations = []
         self.known_hits = []
         self.undecided = []
+        self.excluded = []
+        self.deferred = []
         self.logs_dir = os.path.join(VERIF, "logs", prop)
         shutil.rmtree(self.logs_dir, ignore_errors=True)
         os.makedirs(self.logs_dir, exist_ok=True)
@@ -486,7 +496,23 @@ class Session:
         are verified in a second crate against an UNWOVEN copy (Kani checks a woven contract at every
         call, which is not wanted where the callee's primitives are replaced by uninterpreted functions)."""
         tier = self.tier
-        obs = [o for o in obs if tier == "thorough" or o.tier == "quick"]
+        costs = load_costs()
+        kept = []
+        for o in obs:
+            c = costs.get(o.name[:-7] if o.name.endswith("__split") else o.name)
+            if c == "undecided":
+                if not o.name.endswith("__split"):
+                    self.excluded.append({"ob": o.name, "config": config, "fn": o.fn, "desc": o.desc[:200],
+                                          "why": "not decided by the installed solvers within the thorough timeout (lib/costs.json); not claimed"})
+                continue
+            if isinstance(c, (int, float)):
+                o.cost = max(1.0, c)
+                if c > 100 and o.tier == "quick" and o.expect == "pass":
+                    o.tier = "thorough"
+                    if not o.name.endswith("__split"):
+                        self.deferred.append(o.name)
+            kept.append(o)
+        obs = [o for o in kept if tier == "thorough" or o.tier == "quick"]
         if getattr(self, "only", None):
             sel = [o for o in obs if re.search(self.only, o.name)]
             need = set(p for o in sel for p in o.stub_verified)
@@ -504,7 +530,7 @@ class Session:
         if not obs:
             return
         if timeout_s is None:
-            timeout_s = 240 if tier == "quick" else 1800
+            timeout_s = 600 if tier == "quick" else 1200
         cdir = os.path.join(self.scratch, config + tag)
         gl = os.path.join(cdir, "glam")
         weave.copy_repo(gl)
@@ -537,12 +563,21 @@ class Session:
         for k in range(W):
             hc = os.path.join(cdir, "h%d" % k)
             mine = list(parts[k])
+            bycontract = {o.contract: o for o in stage1 if o.contract}
             for o in parts[k]:
                 if o.split and o.split in byn:
                     mine.append(byn[o.split])
+                # Kani insists that a stub_verified target has its proof_for_contract harness in the same
+                # crate: compile it here too (it is run only by the worker that owns it)
+                for p in o.stub_verified:
+                    dep = bycontract.get(p)
+                    if dep is not None and dep not in mine:
+                        mine.append(dep)
+                        if dep.split and dep.split in byn and byn[dep.split] not in mine:
+                            mine.append(byn[dep.split])
             gen_crate(hc, "../glam", config, mine, extra_rust)
             for o in mine:
-                self.crate_of[(config + tag, o.name)] = hc
+                self.crate_of.setdefault((config + tag, o.name), hc)
             log = os.path.join(self.logs_dir, "%s%s.w%d.stage1.log" % (config, tag, k))
             pr, lf, cmdtxt = start_worker(hc, config, [o.name for o in parts[k]], timeout_s, log)
             procs.append((pr, lf, log))
@@ -740,6 +775,8 @@ class Session:
             "weave": self.weave_summaries,
             "configs": sorted(set(r["config"] for r in real)),
             "not_decided_clauses": list(not_decided),
+            "excluded_undecided": self.excluded,
+            "deferred_to_thorough": sorted(set(self.deferred)),
             "samples": samples,
             "per_obligation": [{k: r.get(k) for k in ("ob", "config", "fn", "kind", "class", "solver", "time_s", "checks", "verdict", "bounded", "clauses")} for r in self.results],
             "explanation": level_note,
